@@ -4,12 +4,13 @@ import SageoptModel.Drv.Sig
 import SageoptModel.Drv.SigL
 import SageoptModel.Drv.SigCalc
 import SageoptModel.Drv.Compile
+import SageoptModel.Drv.Sage
 open Lean
 
 namespace Sageopt.Drv
 
 def allHandlers : List (String × Handler) :=
-  GF2.handlers ++ Solvers.handlers ++ Sig.handlers ++ SigL.handlers ++ SigCalc.handlers ++ Compile.handlers
+  GF2.handlers ++ Solvers.handlers ++ Sig.handlers ++ SigL.handlers ++ SigCalc.handlers ++ Compile.handlers ++ Sage.handlers
 
 def dispatch (line : String) : String :=
   match Json.parse line with
